@@ -208,7 +208,9 @@ class HGen:
                 self.queue.append(("import", t))
             for t in ("x", "head/x"):
                 self.queue.append(("post", t))
-            for path in ["/head//head/x", "/head/x", "/head/head/x", "/head//x", "/head//head/head/x"]:
+            for path in ["/head//head/x", "/head/x", "/head/head/x", "/head//x", "/head//head/head/x",
+                         # a digest in the URL-safe base64 alphabet is not a digest ssri can decode: 400, not a dropped connection
+                         "/cas/sha256-47DEQpj8HBSa__TImW_5JCeuQeRkm5NMpJWZG3hSuFU=", "/cas/sha256-__8="]:
                 self.queue.append(("raw", "GET", path))
             rnd.shuffle(self.queue)
             self.queue.sort(key=lambda q: q[0] == "raw")   # lookups after the writes
@@ -334,7 +336,11 @@ class HGen:
             if kk < 0.8:
                 h = integrity(bytes([r.randrange(256) for _ in range(8)]))
                 return dict(kind=k, toks=["casget", "ok:" + xh(h)], raw=render("GET", "/cas/" + h))
-            return dict(kind=k, toks=["casget", "bad"], raw=render("GET", "/cas/" + r.choice(["nope", "sha256-!!!", "", "md4-abcd", "sha256-abc", "sha256-a", "sha256-ab=c", "sha256-aa==", "sha512-abc"])))
+            return dict(kind=k, toks=["casget", "bad"], raw=render("GET", "/cas/" + r.choice(["nope", "sha256-!!!", "", "md4-abcd", "sha256-abc", "sha256-a", "sha256-ab=c", "sha256-aa==", "sha512-abc",
+                                                                                            # URL-safe base64 alphabet: not what ssri decodes
+                                                                                            # (only '_': ssri cuts a digest at a second '-')
+                                                                                            "sha256-" + base64.urlsafe_b64encode(b"\xfb\xff\xfe" * 10 + b"\xfb\xff").decode().replace("-", "_"),
+                                                                                            "sha256-47DEQpj8HBSa__TImW_5JCeuQeRkm5NMpJWZG3hSuFU="])))
         if k == "caspost":
             body = r.choice(BODIES)
             h = integrity(body) if body else None
